@@ -70,6 +70,9 @@ def gen_case(run, i):
         choice['nodata'] = dict(how=rng.choice(['flag', 'both']), flag=rng.choice([0.1, -9999.9, 1e-300]), conf=None)
         if choice['nodata']['how'] == 'both':
             choice['nodata']['conf'] = 0.3
+    if i % 8 == 3:
+        # an explicit null on the command line against a number in the file: the command line wins (finding D60, repaired)
+        choice['nodata'] = dict(how='both', flag=None, conf=rng.choice([0.0, -9999.0]))
     nb = rng.choice([1, 2, 3])
     bands = None
     if nb > 1 and rng.random() < 0.4:
